@@ -52,7 +52,7 @@ class ShapeMonitor(object):
         self.run = run
         self.report = run.report
         self.c = run.c
-        self.frags = {}              # (id(conn), frag_id, count) -> {index: data}
+        self.frags = {}              # (id(conn), frag_id, count, first message seq) -> {index: data}
         run.tap.listeners.append(self)
 
     def emitted(self, e, direction, addr, datagram, dec, n):
@@ -83,7 +83,9 @@ class ShapeMonitor(object):
                 if not (1 <= idx <= count) or count < 2:
                     self.report("C06", "fragment-coordinates", "fragment header (id=%d index=%d count=%d) on the wire is not well formed" % (fid, idx, count))
                     continue
-                key = (id(e.conn), fid, count)
+                # one fragmented message = (fragment id, count, message seq of its first fragment): the 16-bit fragment id comes
+                # round again in a long session (a resend keeps its message seq, a new message has new ones)
+                key = (id(e.conn), fid, count, (int(seq) - idx) % 65535)
                 parts = self.frags.setdefault(key, {})
                 if idx in parts and parts[idx] != data:
                     self.report("C06", "fragment-changed-on-resend", "fragment %d/%d of message id %d was resent with different bytes" % (idx, count, fid))
